@@ -312,6 +312,7 @@ RULES = [
 from ..selftest import M  # noqa: E402
 F = 'txtorcon/torcontrolprotocol.py'
 MUTANTS = [
+    M('issue-command-takes-argument', 'txtorcon/torcontrolprotocol.py', "    def _maybe_issue_command(self):\n", "    def _maybe_issue_command(self, force):\n", ['R-X']),
     M('errback-only-if-observed', F, "            if not d.called:\n                d.errback(", "            if not d.called and d.callbacks:\n                d.errback(", ['R03.1']),
     M('queue-not-emptied', F, "        self.defer = None\n        self.commands = []\n", "        self.defer = None\n", ['R03.1']),
     M('only-inflight-failed', F, "outstanding = [self.command] + self.commands if self.command else self.commands", "outstanding = [self.command] if self.command else []", ['R03.1']),
